@@ -4,7 +4,7 @@ from __future__ import annotations
 import ast
 from typing import Dict, List, Optional, Set, Tuple
 
-from ..cfg import CFG
+from ..cfg import reaching_defs, CFG
 from ..kinds import node_containing
 from ..model import AnalysisError, attr_chain, is_self_attr, norm, short, stores_in, walk_local
 from ..pmodel import ParserModel
@@ -45,9 +45,24 @@ def run(ctx: Ctx) -> None:
     cfg = CFG(new)
     stores = [n for n in cfg.nodes if n.kind == "stmt" and isinstance(n.stmt, ast.Assign) and any(attr_chain(t) in (("cls", "_lexer"), ("PlyLexer", "_lexer")) for t in n.stmt.targets)]
     ok = len(stores) == 1
+    rd_new = reaching_defs(cfg)
+    # locals that are a plain copy of the prototype attribute (prototype = cls._lexer)
+    proto_alias = {t.id for n in cfg.nodes if n.kind == "stmt" and isinstance(n.stmt, ast.Assign) and attr_chain(n.stmt.value) in (("cls", "_lexer"), ("PlyLexer", "_lexer")) for t in n.stmt.targets if isinstance(t, ast.Name)}
     if ok:
-        guard = [cfg.nodes[i] for i in cfg.dominators()[stores[0].id] if cfg.nodes[i].kind == "test" and cfg.nodes[i].cond is not None and "_lexer is None" in norm(cfg.nodes[i].cond)]
-        ok = bool(guard) and isinstance(stores[0].stmt.value, ast.Call) and attr_chain(stores[0].stmt.value.func) == ("lex", "lex")
+        def tests_prototype_none(c: ast.AST, at) -> bool:
+            if "_lexer is None" in norm(c):
+                return True
+            # `prototype is None` where prototype still holds cls._lexer
+            if isinstance(c, ast.Compare) and isinstance(c.left, ast.Name) and c.left.id in proto_alias and len(c.ops) == 1 and isinstance(c.ops[0], ast.Is) and norm(c.comparators[0]) == "None":
+                ds = [cfg.nodes[i] for i in rd_new.get(at.id, {}).get(c.left.id, ())]
+                return bool(ds) and all(isinstance(d.stmt, ast.Assign) and attr_chain(d.stmt.value) in (("cls", "_lexer"), ("PlyLexer", "_lexer")) for d in ds)
+            return False
+        guard = [cfg.nodes[i] for i in cfg.dominators()[stores[0].id] if cfg.nodes[i].kind == "test" and cfg.nodes[i].cond is not None and tests_prototype_none(cfg.nodes[i].cond, cfg.nodes[i])]
+        val = stores[0].stmt.value
+        if isinstance(val, ast.Name):
+            ds = [cfg.nodes[i] for i in rd_new.get(stores[0].id, {}).get(val.id, ())]
+            val = ds[0].stmt.value if len(ds) == 1 and isinstance(ds[0].stmt, ast.Assign) else val
+        ok = bool(guard) and isinstance(val, ast.Call) and attr_chain(val.func) == ("lex", "lex")
     ctx.ob("R15.2", "lexer:PlyLexer.__new__|prototype assigned once, under `_lexer is None`", ok, msg="the shared lexer prototype can be rebuilt or replaced after first use", node=new, mod=lex)
     for m in repo.modules.values():
         for qual, fn in m.functions():
@@ -67,6 +82,23 @@ def run(ctx: Ctx) -> None:
                         kind = "tested"
                     elif isinstance(par, ast.Attribute) and par.attr == "clone" and isinstance(gp, ast.Call) and gp.args:
                         kind = "cloned"
+                    elif isinstance(par, ast.Assign) and par.value is x and all(isinstance(t, ast.Name) for t in par.targets):
+                        # read into a local: what matters is what the local is used for
+                        loc = {t.id for t in par.targets}
+                        uses_ = [y for y in walk_local(fn) if isinstance(y, ast.Name) and y.id in loc and isinstance(y.ctx, ast.Load)]
+                        kinds_ = set()
+                        for y in uses_:
+                            p1 = m.parent.get(y)
+                            p2 = m.parent.get(p1) if p1 is not None else None
+                            if isinstance(p1, ast.Compare):
+                                kinds_.add("tested")
+                            elif isinstance(p1, ast.Attribute) and p1.attr == "clone" and isinstance(p2, ast.Call) and p2.args:
+                                kinds_.add("cloned")
+                            elif isinstance(p1, ast.Assign) and p1.value is y and all(attr_chain(t) in (("cls", "_lexer"), ("PlyLexer", "_lexer")) for t in p1.targets):
+                                kinds_.add("tested")  # stored back as the prototype
+                            else:
+                                kinds_.add("other")
+                        kind = "other" if "other" in kinds_ or not kinds_ else ("cloned" if "cloned" in kinds_ else "tested")
                     reads.append((m, qual, x, kind))
     bad = [(m.name, q) for m, q, x, k in reads if k == "other"]
     ctx.ob("R15.2", "lexer|prototype only tested and cloned-with-instance", not bad and any(k == "cloned" for *_, k in reads),
